@@ -77,12 +77,13 @@ def streams(tier, rng, P, only=None, cases=None):
         cs = []
         n = 3000 if big else 500
         for i in range(n):
-            form = rng.choice(["rest", "note", "l", "bang_time", "bang_arg"])
+            form = rng.choice(["rest", "note", "noten", "l", "bang_time", "bang_arg"])
             text, s, k = gen_expr(rng, True, layout=(form in ("rest", "note", "l") and rng.random() < 0.4))
             tb = rng.choice([48, 96, 120, 480, 960])
             dtext, ds, _ = gen_expr(rng, True)
             if form == "rest": src = "TimeBase(%d) l%s r%s n60" % (tb, dtext, text)
             elif form == "note": src = "TimeBase(%d) l%s c%s n60" % (tb, dtext, text)
+            elif form == "noten": src = "TimeBase(%d) l%s n61%s n60" % (tb, dtext, ("," + text) if text else "")   # numbered note: its length slot
             elif form == "l": src = "TimeBase(%d) l%s r n60" % (tb, text); ds = None
             elif form == "bang_time": src = "TimeBase(%d) TIME(!%s) n60" % (tb, text); ds = "bang"
             else: src = "TimeBase(%d) TIME=!%s; n60" % (tb, text); ds = "bang"
